@@ -268,3 +268,32 @@ bool writelen_ok(draco::DecoderBuffer *b, int32_t *slots, size_t num_values) {
   return true;
 }
 }  // namespace verif_control
+
+// ---- CLAIMONCE (C03) --------------------------------------------------------
+namespace verif_control {
+struct Claim {
+  int owner = -1;
+  int other = -1;
+};
+bool claim_ok(Claim *c, int id) {
+  if (c->owner >= 0) return false;
+  c->owner = id;
+  return true;
+}
+bool claim_ptr_ok(Claim *c, int id, bool first) {
+  int *slot = first ? &c->owner : &c->other;
+  if (*slot != -1) return false;
+  *slot = id;
+  return true;
+}
+// `> 0` lets a second claimant take over from owner 0
+bool claim_weak_bad(Claim *c, int id) {
+  if (c->owner > 0) return false;
+  c->owner = id;
+  return true;
+}
+bool claim_missing_bad(Claim *c, int id) {
+  c->owner = id;
+  return true;
+}
+}  // namespace verif_control
